@@ -59,6 +59,21 @@ func NewLoadBalancer(targets TargetList) *LoadBalancer {
 	return lb
 }
 
+// NewHealthyLoadBalancer is for targets restored from saved state. They are
+// presumed healthy until their first health check says otherwise, so they are
+// marked healthy before the health checks begin: marking them afterwards could
+// overwrite the result of a first check that had already failed.
+func NewHealthyLoadBalancer(targets TargetList) *LoadBalancer {
+	lb := &LoadBalancer{
+		healthy: TargetList{},
+		all:     targets,
+	}
+
+	lb.MarkAllHealthy()
+	lb.beginHealthChecks()
+	return lb
+}
+
 func (lb *LoadBalancer) Targets() TargetList {
 	lb.lock.Lock()
 	defer lb.lock.Unlock()
